@@ -27,6 +27,7 @@ def keys_of(nodes):
 
 class Check(PropCheck):
     pid = 'C04'
+    pure_predicate = True
     tol = None
     rule = ('random interleavings of the editing operations with read-only queries (cache-filling ones first, edits, reset_bipartition_cache, '
             'then every query; each query issued twice in shuffled order), then the tree is re-created by from_newick(to_newick) and every '
